@@ -117,13 +117,9 @@ func newC04Env(c *vf.Ctx, r *rand.Rand, realTCP bool) (*c04Env, error) {
 		}
 		e.front[m] = f
 	}
-	// an address nobody listens on: bind a port, remember it, close it
-	f, err := NewFront(c, e.id, e.pub, MountPlain, "")
-	if err != nil {
-		return nil, err
-	}
-	e.dead = f.Addr
-	f.Close()
+	// an address nobody listens on. (A port that was bound and closed again can be handed to another
+	// process, e.g. another shard's front, while the run is going on; port 1 is never listening here.)
+	e.dead = multiaddr.StringCast("/ip4/127.0.0.1/tcp/1/http")
 	return e, nil
 }
 
